@@ -3,6 +3,9 @@ use serde_json::Value;
 
 pub mod c02;
 pub mod c04;
+pub mod c05;
+pub mod c09;
+pub mod c13;
 pub mod c15;
 pub mod c19;
 
@@ -26,6 +29,9 @@ macro_rules! table {
 table! {
     "C02" => c02,
     "C04" => c04,
+    "C05" => c05,
+    "C09" => c09,
+    "C13" => c13,
     "C15" => c15,
     "C19" => c19,
 }
@@ -36,5 +42,13 @@ pub fn run_fixed_tier(ctx: &Ctx, replay: impl Fn(&Ctx, &str, &Value) -> Result<(
         if let Err(e) = replay(ctx, &sub, &case) {
             ctx.infra(format!("cannot replay {}: {}", path.display(), e));
         }
+    }
+}
+
+/// per-property framework settings
+pub fn configure(ctx: &mut Ctx) {
+    if ctx.id == "C09" {
+        ctx.hang_limit = std::time::Duration::from_secs(20);
+        ctx.hang_is_violation = true;
     }
 }
